@@ -34,7 +34,8 @@ const WARM_V4: &str = "127.0.0.77"; // never part of any blacklist: used only to
 const ROUTE_TYPES: [&str; 4] = ["file", "directory", "proxy", "redirect"];
 // entries that are not IP addresses: words, the empty entry, out-of-range / short dotted forms, and a listed
 // address written with digits of other scripts (fullwidth, Arabic-Indic, mathematical) or followed by a superscript
-const GARBAGE: [&str; 11] = ["unknown", "", "256.1.1.1", "1.2.3", "_hidden", "localhost",
+// (no host names and no short dotted forms: a resolver or an inet_aton-style parser may legitimately read those as addresses)
+const GARBAGE: [&str; 9] = ["unknown", "", "256.1.1.1", "_hidden",
     "\u{ff11}\u{ff12}\u{ff17}.0.0.2", "\u{0661}\u{0662}\u{0667}.\u{0660}.\u{0660}.\u{0662}", "127.0.0.\u{1d7da}", "127.0.0.2\u{00b2}", "\u{2167}"];
 // the field name in the cases HTTP/1 clients, HTTP/2 gateways and hand-written tools use
 const XFF_NAMES: [&str; 6] = ["X-Forwarded-For", "x-forwarded-for", "X-FORWARDED-FOR", "x-Forwarded-for", "X-forwarded-FOR", "X-Forwarded-for"];
@@ -178,6 +179,11 @@ struct Server {
     ver: u64,      // version stamp written into the file about to be requested
     fresh: u64,    // counter for never-requested targets
     warmed: BTreeMap<String, bool>, // route type -> warm target available
+    /// the configuration uses a way of writing things the property does not speak about: CRLF / no final newline in the
+    /// list file, `mode` left to its default, no `file` directive for an empty list
+    exotic_cfg: bool,
+    /// an exotic configuration did not start and the plain one was used instead
+    fell_back: bool,
 }
 
 /// textual spellings of the same IPv6 address: canonical, fully expanded, upper case with leading zeros, mixed
@@ -259,7 +265,8 @@ fn listener_owned_by(pid: u32, port: u16) -> bool {
 /// The list as a file.  The list is a SET of addresses: order, duplicates, other spellings of the same address,
 /// padding entries that name nobody who ever connects or is forwarded, CRLF line ends and a missing final newline
 /// must not change any decision.  (load_list_file: one address per line, no comments, no blank lines.)
-fn blacklist_file(list: &[String], lm: bool, variant: usize) -> String {
+/// `plain`: LF line ends and a final newline (the entries, their order, spellings and duplicates stay the same).
+fn blacklist_file(list: &[String], lm: bool, variant: usize, plain: bool) -> String {
     let mut lines: Vec<String> = vec![];
     for (i, a) in list.iter().enumerate() {
         let forms = if lm { mapped_forms(a) } else { v6_forms(a) };
@@ -287,9 +294,9 @@ fn blacklist_file(list: &[String], lm: bool, variant: usize) -> String {
             _ => { for i in (1..lines.len()).rev() { let j = r.below(i + 1); lines.swap(i, j); } }
         }
     }
-    let eol = if variant % 4 == 2 { "\r\n" } else { "\n" };
+    let eol = if variant % 4 == 2 && !plain { "\r\n" } else { "\n" };
     let mut out = lines.join(eol);
-    if variant % 2 == 0 && !lines.is_empty() {
+    if (variant % 2 == 0 || plain) && !lines.is_empty() {
         out.push_str(eol);
     }
     out
@@ -299,27 +306,34 @@ impl Server {
     /// `bind_ip`: "127.0.0.1", "::1" or "::" (dual-stack: clients then connect to 127.0.0.1 and are seen by the
     /// server as ::ffff:127.x.y.z).  `variant` picks textual forms in the generated files.
     /// `lm`: the IPv4 entries of the blacklist file are written in IPv4-mapped form (two spellings alternate).
-    fn start(bin: &str, base: &Path, name: &str, bind_ip: &str, mode: &str, list: &[String], lm: bool, cache: bool, variant: usize) -> Result<Server, String> {
+    fn start(bin: &str, base: &Path, name: &str, bind_ip: &str, mode: &str, list: &[String], lm: bool, cache: bool, variant: usize, plain: bool) -> Result<Server, String> {
         let dir = base.join(name);
         let _ = fs::remove_dir_all(&dir);
         fs::create_dir_all(dir.join("www")).map_err(|e| e.to_string())?;
         fs::write(dir.join("file.txt"), "C19-FILE v0\n").map_err(|e| e.to_string())?;
         fs::write(dir.join("www").join("a.txt"), "C19-DIR v0\n").map_err(|e| e.to_string())?;
-        fs::write(dir.join("blacklist.txt"), blacklist_file(list, lm, variant)).map_err(|e| e.to_string())?;
+
         let upstream = Upstream::start();
         let ip: IpAddr = bind_ip.parse().unwrap();
         for attempt in 0..6 {
+            // an exotic way of writing the configuration that this server does not accept is not this property's
+            // business: from the third attempt on the plain way is used (reported as drift by the driver)
+            let asked_plain = plain;
+            let plain = plain || attempt >= 2;
+            let file_text = blacklist_file(list, lm, variant, plain);
+            let file_exotic = file_text != blacklist_file(list, lm, variant, true);
+            fs::write(dir.join("blacklist.txt"), file_text).map_err(|e| e.to_string())?;
             let nonce = format!("{}-{}-{}", std::process::id(), name, attempt);
             let port = {
                 let l = TcpListener::bind(SocketAddr::new(ip, 0)).map_err(|e| format!("cannot bind {}: {}", bind_ip, e))?;
                 l.local_addr().unwrap().port()
             };
             // an empty list is given alternately as an empty file and as no `file` directive at all
-            let blfile = if list.is_empty() && variant % 2 == 1 { String::new() } else { format!("    file \"{}\"\n", dir.join("blacklist.txt").display()) };
+            let blfile = if list.is_empty() && variant % 2 == 1 && !plain { String::new() } else { format!("    file \"{}\"\n", dir.join("blacklist.txt").display()) };
             let cache_sec = if cache { "  cache {\n    size 1M\n    time 3600\n  }\n" } else { "" };
             // `block` is the default mode: every third block configuration leaves the directive out (file without mode);
             // with an empty list the file directive may be missing (mode without file, see above)
-            let modeline = if mode == "block" && variant % 3 == 1 { String::new() } else { format!("    mode \"{}\"\n", mode) };
+            let modeline = if mode == "block" && variant % 3 == 1 && !plain { String::new() } else { format!("    mode \"{}\"\n", mode) };
             let conf = format!(
                 "server {{\n  address \"{ip}\"\n  port {port}\n  threads 4\n  blacklist {{\n{blfile}{modeline}  }}\n  log {{\n    level \"error\"\n    console false\n  }}\n{cache_sec}  route /file/* {{\n    file \"{d}/file.txt\"\n  }}\n  route /dir/* {{\n    directory \"{d}/www\"\n  }}\n  route /redir/* {{\n    redirect \"{redir}\"\n  }}\n  route /proxy/* {{\n    proxy \"127.0.0.1:{up}\"\n  }}\n  route /c19id/{nonce} {{\n    redirect \"http://c19.invalid/id/{nonce}\"\n  }}\n}}\n",
                 ip = bind_ip, port = port, nonce = nonce, blfile = blfile, modeline = modeline, cache_sec = cache_sec, d = dir.display(), redir = REDIRECT_TARGET, up = upstream.port
@@ -371,7 +385,7 @@ impl Server {
                             let _ = c.write_all(format!("GET /c19id/{n} HTTP/1.1\r\nHost: c19.test\r\n\r\n", n = nonce).as_bytes());
                             let mut lo = vec![];
                             let o = read_response(&mut c, &mut lo, true);
-                            o.status == Some(301) && o.headers.iter().any(|(k, v)| k == "location" && *v == format!("http://c19.invalid/id/{}", nonce))
+                            matches!(o.status, Some(300..=399)) && o.headers.iter().any(|(k, v)| k == "location" && *v == format!("http://c19.invalid/id/{}", nonce))
                         }
                         None => listener_owned_by(child.id(), port),
                     };
@@ -386,7 +400,8 @@ impl Server {
                     let _ = child.wait();
                     continue;
                 }
-                return Ok(Server { child, addr, dir, cache, upstream, ver: 0, fresh: 0, warmed: BTreeMap::new() });
+                let exotic_cfg = file_exotic || blfile.is_empty() || modeline.is_empty();
+                return Ok(Server { child, addr, dir, cache, upstream, ver: 0, fresh: 0, warmed: BTreeMap::new(), exotic_cfg, fell_back: attempt >= 2 && !asked_plain && (blacklist_file(list, lm, variant, false) != blacklist_file(list, lm, variant, true) || (list.is_empty() && variant % 2 == 1) || (mode == "block" && variant % 3 == 1)) });
             }
             let _ = child.kill();
             let _ = child.wait();
@@ -430,7 +445,8 @@ struct Obs {
     err: String,
 }
 
-fn render_xff(es: &[(String, bool, bool)], n: usize) -> String {
+/// `plain`: optional white space is exactly one blank after the comma (what the statement's quantifier names).
+fn render_xff(es: &[(String, bool, bool)], n: usize, plain: bool) -> String {
     // (token, is_garbage, optional white space around)
     let all_garbage = !es.is_empty() && es.iter().all(|e| e.1);
     let mut out = String::new();
@@ -439,7 +455,7 @@ fn render_xff(es: &[(String, bool, bool)], n: usize) -> String {
             out.push(',');
         }
         if *sp && i > 0 {
-            out.push_str(OWS_LEAD[(n + i) % OWS_LEAD.len()]);
+            out.push_str(if plain { " " } else { OWS_LEAD[(n + i) % OWS_LEAD.len()] });
         }
         if *garbage {
             // every fourth all-garbage list consists of empty entries only: ``, `,`, `, ` - lone delimiters and blanks
@@ -448,7 +464,7 @@ fn render_xff(es: &[(String, bool, bool)], n: usize) -> String {
             let forms = v6_forms(tok);
             out.push_str(&forms[(n + i) % forms.len()]);
         }
-        if *sp && i > 0 && i + 1 < es.len() {
+        if *sp && i > 0 && i + 1 < es.len() && !plain {
             out.push_str(OWS_TRAIL[(n / 2 + i) % OWS_TRAIL.len()]);
         }
     }
@@ -457,7 +473,8 @@ fn render_xff(es: &[(String, bool, bool)], n: usize) -> String {
 
 /// `xff2`: a second X-Forwarded-For line (random sessions only).  Every fifth request carries 30..90 other fields
 /// with the X-Forwarded-For line(s) somewhere among them.
-fn request_bytes(uri: &str, xff: Option<&str>, xff2: Option<&str>, keep_alive: bool, n: usize) -> Vec<u8> {
+/// `plain`: `Name: value` with one blank after the colon.
+fn request_bytes(uri: &str, xff: Option<&str>, xff2: Option<&str>, keep_alive: bool, n: usize, plain: bool) -> Vec<u8> {
     let mut s = format!("GET {} HTTP/1.1\r\nHost: c19.test\r\n", uri);
     if n % 2 == 1 {
         s.push_str("User-Agent: c19-harness\r\nAccept: */*\r\n");
@@ -467,20 +484,18 @@ fn request_bytes(uri: &str, xff: Option<&str>, xff2: Option<&str>, keep_alive: b
         s.push_str(&format!("X-Filler-{}: {}\r\n", i, "v".repeat(1 + i % 40)));
     }
     if let Some(x) = xff {
-        s.push_str(&format!("{}{}{}\r\n", XFF_NAMES[n % XFF_NAMES.len()], NAME_SEP[(n / 3) % NAME_SEP.len()], x));
+        s.push_str(&format!("{}{}{}\r\n", XFF_NAMES[n % XFF_NAMES.len()], if plain { ": " } else { NAME_SEP[(n / 3) % NAME_SEP.len()] }, x));
     }
     for i in 0..between {
         s.push_str(&format!("X-Forwarded-Host: h{}.example\r\n", i));
     }
     if let Some(x) = xff2 {
-        s.push_str(&format!("{}{}{}\r\n", XFF_NAMES[(n / 2) % XFF_NAMES.len()], NAME_SEP[n % NAME_SEP.len()], x));
+        s.push_str(&format!("{}{}{}\r\n", XFF_NAMES[(n / 2) % XFF_NAMES.len()], if plain { ": " } else { NAME_SEP[n % NAME_SEP.len()] }, x));
     }
     for i in 0..after {
         s.push_str(&format!("X-Tail-{}: {}\r\n", i, i));
     }
-    if keep_alive {
-        s.push_str("Connection: keep-alive\r\n");
-    }
+    s.push_str(if keep_alive { "Connection: keep-alive\r\n" } else { "Connection: close\r\n" });
     s.push_str("\r\n");
     s.into_bytes()
 }
@@ -529,7 +544,10 @@ fn read_response(s: &mut TcpStream, leftover: &mut Vec<u8>, to_eof: bool) -> Obs
     let clen = headers.iter().find(|(k, _)| k == "content-length").and_then(|(_, v)| v.parse::<usize>().ok());
     let mut body = buf[head_end + 4..].to_vec();
     let nbytes_head = head_end + 4;
-    if to_eof || clen.is_none() {
+    // (with a Content-Length the body is complete when it is complete: whether and when the server closes the
+    //  connection afterwards is not this property's business)
+    let _ = to_eof;
+    if clen.is_none() {
         loop {
             match s.read(&mut tmp) {
                 Ok(0) => break,
@@ -583,7 +601,7 @@ fn classify(rt: &str, o: &Obs, cur_ver: u64) -> (String, bool) {
         None => {
             if o.nbytes == 0 {
                 match o.err.as_str() {
-                    "eof" | "ConnectionReset" | "BrokenPipe" | "ConnectionAborted" => ("Dropped".into(), false),
+                    "eof" | "ConnectionReset" | "BrokenPipe" | "ConnectionAborted" | "NotConnected" | "UnexpectedEof" => ("Dropped".into(), false),
                     e => (format!("Other:no-bytes-{}", e), false),
                 }
             } else {
@@ -597,22 +615,24 @@ fn classify(rt: &str, o: &Obs, cur_ver: u64) -> (String, bool) {
                 ("Forbidden403".into(), false)
             }
         }
-        Some(200) if rt == "file" || rt == "directory" => {
+        // "served normally" = the route's content; the statement names no status code for it: any 2xx with the
+        // content, any 3xx with the configured Location
+        Some(200..=299) if rt == "file" || rt == "directory" => {
             let want = if rt == "file" { "C19-FILE v" } else { "C19-DIR v" };
             if let Some(rest) = body.strip_prefix(want) {
                 let v: u64 = rest.trim().parse().unwrap_or(u64::MAX);
                 ("Served".into(), v != cur_ver)
             } else {
-                ("Other:200-unexpected-body".into(), false)
+                ("Other:2xx-unexpected-body".into(), false)
             }
         }
-        Some(200) if rt == "proxy" && body == "C19-UPSTREAM" => ("Served".into(), false),
-        Some(301) if rt == "redirect" => {
+        Some(200..=299) if rt == "proxy" && body == "C19-UPSTREAM" => ("Served".into(), false),
+        Some(300..=399) if rt == "redirect" => {
             let loc = o.headers.iter().find(|(k, _)| k == "location").map(|(_, v)| v.as_str()).unwrap_or("");
             if loc == REDIRECT_TARGET {
                 ("Served".into(), false)
             } else {
-                (format!("Other:301-location-{}", loc), false)
+                (format!("Other:3xx-location-{}", loc), false)
             }
         }
         Some(c) => (format!("Other:{}", c), false),
@@ -623,14 +643,14 @@ fn classify(rt: &str, o: &Obs, cur_ver: u64) -> (String, bool) {
 /// A connection on which nothing arrives and which is not closed either is given 5 s, then the request is repeated
 /// with 25 s; only then is it the observation `Other:hang` (never a tool error: a server that neither answers nor
 /// closes is a server that does not do what the property says).
-fn one_shot(srv: &mut Server, src: IpAddr, rt: &str, uri: &str, xff: Option<&str>, n: usize) -> (String, bool, String) {
+fn one_shot(srv: &mut Server, src: IpAddr, rt: &str, uri: &str, xff: Option<&str>, n: usize, plain: bool) -> (String, bool, String) {
     let mut last = ("Other:connect".to_string(), false, String::new());
     for attempt in 0..3u64 {
         srv.stamp(rt, uri);
         let wait = if attempt == 0 { 5 } else { 25 };
         match connect_from(src, srv.addr, Duration::from_secs(wait)) {
             Ok(mut s) => {
-                let req = request_bytes(uri, xff, None, false, n);
+                let req = request_bytes(uri, xff, None, false, n, plain);
                 let mut o;
                 if let Err(e) = s.write_all(&req) {
                     o = Obs { status: None, headers: vec![], body: vec![], nbytes: 0, err: format!("{:?}", e.kind()) };
@@ -762,6 +782,9 @@ struct Stats {
     skipped_no_dual: u64,
     hangs: u64,
     aborted_after_hangs: u64,
+    drifts: u64,
+    layout_fallbacks: u64,
+    first_drift: Vec<Value>,
     rows_dual: u64,
     samples: Vec<Value>,
     first: Vec<Value>,
@@ -786,6 +809,47 @@ fn parse_es(row: &Value) -> Vec<(String, bool, bool)> {
     }).unwrap_or_default()
 }
 
+/// warm targets (cache on): requested once by a client that is on no list
+fn warm_up(srv: &mut Server, g: &Group, fam_v6: bool, alt_v6: Option<Ipv6Addr>) {
+    if !g.cache {
+        return;
+    }
+    let warm_src: Option<IpAddr> = if !fam_v6 {
+        Some(WARM_V4.parse().unwrap())
+    } else if !g.list.iter().any(|a| a == "::1") {
+        Some("::1".parse().unwrap())
+    } else {
+        alt_v6.map(IpAddr::V6)
+    };
+    for (rt, uri) in [("file", "/file/warm"), ("directory", "/dir/warm.txt")] {
+        let mut ok = false;
+        if let Some(src) = warm_src {
+            let (res, _, _) = one_shot(srv, src, rt, uri, None, 0, true);
+            ok = res == "Served";
+        }
+        srv.warmed.insert(rt.to_string(), ok);
+    }
+}
+
+fn pick_uri(srv: &mut Server, rt: &str, warm: bool, cache: bool, counter: usize) -> String {
+    match (rt, warm, cache) {
+        ("file", true, _) => "/file/warm".to_string(),
+        ("directory", true, _) => "/dir/warm.txt".to_string(),
+        ("file", false, true) => {
+            srv.fresh += 1;
+            format!("/file/cold{}", srv.fresh)
+        }
+        ("directory", false, true) => {
+            srv.fresh += 1;
+            format!("/dir/cold{}.txt", srv.fresh)
+        }
+        ("file", _, _) => "/file/x".to_string(),
+        ("directory", _, _) => "/dir/a.txt".to_string(),
+        ("proxy", _, _) => format!("/proxy/p{}", counter % 3),
+        _ => format!("/redir/r{}", counter % 3),
+    }
+}
+
 fn run_group(bin: &str, base: &Path, gi: usize, g: &Group, st: &mut Stats, have_v6: bool, have_dual: bool, alt_v6: Option<Ipv6Addr>) -> Result<(), String> {
     let mut counter: usize = gi * 7;
     // a line of a dual-stack configuration goes to the instance on "::" (IPv4 peers only), any other line to the
@@ -805,26 +869,16 @@ fn run_group(bin: &str, base: &Path, gi: usize, g: &Group, st: &mut Stats, have_
             st.skipped_no_dual += lines.iter().map(|l| l["rows"].as_array().map(|r| r.len()).unwrap_or(0) as u64).sum::<u64>();
             continue;
         }
-        let mut srv = Server::start(bin, base, &format!("g{}{}", gi, tag), bind_ip, &g.mode, &g.list, g.lm, g.cache, gi)?;
+        let mut srv = Server::start(bin, base, &format!("g{}{}", gi, tag), bind_ip, &g.mode, &g.list, g.lm, g.cache, gi, false)?;
         st.servers += 1;
-        // warm targets (cache on): requested once by a client that is on no list
-        if g.cache {
-            let warm_src: Option<IpAddr> = if !fam_v6 {
-                Some(WARM_V4.parse().unwrap())
-            } else if !g.list.iter().any(|a| a == "::1") {
-                Some("::1".parse().unwrap())
-            } else {
-                alt_v6.map(IpAddr::V6)
-            };
-            for (rt, uri) in [("file", "/file/warm"), ("directory", "/dir/warm.txt")] {
-                let mut ok = false;
-                if let Some(src) = warm_src {
-                    let (res, _, _) = one_shot(&mut srv, src, rt, uri, None, 0);
-                    ok = res == "Served";
-                }
-                srv.warmed.insert(rt.to_string(), ok);
-            }
+        if srv.fell_back {
+            st.layout_fallbacks += 1;
         }
+        warm_up(&mut srv, g, fam_v6, alt_v6);
+        // the same configuration written the plain way, started only when a mismatch has to be judged a second time
+        let mut twin: Option<Server> = None;
+        let mut rechecks = 0u32;
+        let mut recheck_stood = false;
         let mut hangs_here = 0;
         for line in lines {
             if hangs_here >= 3 {
@@ -855,29 +909,14 @@ fn run_group(bin: &str, base: &Path, gi: usize, g: &Group, st: &mut Stats, have_
                             continue;
                         }
                         counter += 1;
-                        let uri = match (rt, warm, g.cache) {
-                            ("file", true, _) => "/file/warm".to_string(),
-                            ("directory", true, _) => "/dir/warm.txt".to_string(),
-                            ("file", false, true) => {
-                                srv.fresh += 1;
-                                format!("/file/cold{}", srv.fresh)
-                            }
-                            ("directory", false, true) => {
-                                srv.fresh += 1;
-                                format!("/dir/cold{}.txt", srv.fresh)
-                            }
-                            ("file", _, _) => "/file/x".to_string(),
-                            ("directory", _, _) => "/dir/a.txt".to_string(),
-                            ("proxy", _, _) => format!("/proxy/p{}", counter % 3),
-                            _ => format!("/redir/r{}", counter % 3),
-                        };
-                        let xff_text = if present { Some(render_xff(&es, counter)) } else { None };
+                        let uri = pick_uri(&mut srv, rt, warm, g.cache, counter);
+                        let xff_text = if present { Some(render_xff(&es, counter, false)) } else { None };
                         let hits_before = srv.upstream.hits.load(Ordering::SeqCst);
-                        let (mut got, mut from_cache, mut detail) = one_shot(&mut srv, peer, rt, &uri, xff_text.as_deref(), counter);
+                        let (mut got, mut from_cache, mut detail) = one_shot(&mut srv, peer, rt, &uri, xff_text.as_deref(), counter, false);
                         if inconclusive(&got) {
                             // no verdict can be based on a failed connect or a read timeout: once more, then a tool error
                             std::thread::sleep(Duration::from_millis(200));
-                            let again = one_shot(&mut srv, peer, rt, &uri, xff_text.as_deref(), counter);
+                            let again = one_shot(&mut srv, peer, rt, &uri, xff_text.as_deref(), counter, false);
                             got = again.0;
                             from_cache = again.1;
                             detail = again.2;
@@ -928,7 +967,52 @@ fn run_group(bin: &str, base: &Path, gi: usize, g: &Group, st: &mut Stats, have_
                         if ok && got != model {
                             st.model_divergence += 1;
                         }
+                        // Second judgement.  Where the request or the configuration was WRITTEN in a way the statement does not
+                        // speak about (tabs / blanks before a comma / no blank after the colon; CRLF or no final newline in the
+                        // list file, `mode` left to its default, no `file` directive), the same request is sent once more written
+                        // the plain way, to the same configuration written the plain way.  Correct there: the difference is spec
+                        // drift, not a violation of C19.
+                        let mut drift = false;
+                        let mut plain_got = String::new();
                         if !ok {
+                            let plain_text = if present { Some(render_xff(&es, counter, true)) } else { None };
+                            let req_exotic = request_bytes(&uri, xff_text.as_deref(), None, false, counter, false) != request_bytes(&uri, plain_text.as_deref(), None, false, counter, true);
+                            if req_exotic || srv.exotic_cfg {
+                                if rechecks < 200 {
+                                    rechecks += 1;
+                                    if srv.exotic_cfg && twin.is_none() {
+                                        let mut t = Server::start(bin, base, &format!("g{}{}twin", gi, tag), bind_ip, &g.mode, &g.list, g.lm, g.cache, gi, true)?;
+                                        warm_up(&mut t, g, fam_v6, alt_v6);
+                                        twin = Some(t);
+                                    }
+                                    let target: &mut Server = if srv.exotic_cfg { twin.as_mut().unwrap() } else { &mut srv };
+                                    if !(warm && !*target.warmed.get(rt).unwrap_or(&false)) {
+                                        let uri2 = pick_uri(target, rt, warm, g.cache, counter);
+                                        let (g2, _, _) = one_shot(target, peer, rt, &uri2, plain_text.as_deref(), counter, true);
+                                        if rt == "directory" && !warm && g.cache {
+                                            let _ = fs::remove_file(target.dir.join("www").join(uri2.trim_start_matches("/dir/")));
+                                        }
+                                        drift = exp.iter().any(|e| *e == g2);
+                                        plain_got = g2;
+                                    }
+                                    if !drift {
+                                        recheck_stood = true;
+                                    }
+                                } else {
+                                    // 200 second judgements made here: if every one of them said "drift", so is this one
+                                    drift = !recheck_stood;
+                                    plain_got = "(not repeated)".into();
+                                }
+                            }
+                        }
+                        if !ok && drift {
+                            st.drifts += 1;
+                            if st.first_drift.len() < 60 {
+                                st.first_drift.push(json!({"mode": g.mode, "list": g.list, "cache": g.cache, "dual": g.dual, "lm": g.lm, "peer": peer_s, "listen": bind_ip,
+                                    "xff_header": xff_text, "p": present, "es": row["es"], "rt": rt, "uri": uri, "warm": warm, "exp": exp, "got": got,
+                                    "written_plainly_got": plain_got, "exotic_configuration": srv.exotic_cfg, "detail": detail}));
+                            }
+                        } else if !ok {
                             st.mismatches += 1;
                             let mut dev = serde_json::Map::new();
                             if let Some(d) = row["dev"].as_object() {
@@ -1020,6 +1104,13 @@ fn replay(bin: &str, base: &Path, threads: usize) {
                 t.skipped_no_v6 += st.skipped_no_v6;
                 t.skipped_no_dual += st.skipped_no_dual;
                 t.hangs += st.hangs;
+                t.drifts += st.drifts;
+                t.layout_fallbacks += st.layout_fallbacks;
+                for m in st.first_drift {
+                    if t.first_drift.len() < 200 {
+                        t.first_drift.push(m);
+                    }
+                }
                 t.aborted_after_hangs += st.aborted_after_hangs;
                 t.rows_dual += st.rows_dual;
                 for s in st.samples {
@@ -1039,6 +1130,9 @@ fn replay(bin: &str, base: &Path, threads: usize) {
     for m in &t.first {
         out_line(&json!({"mismatch": m}));
     }
+    for m in &t.first_drift {
+        out_line(&json!({"drift": m}));
+    }
     let errs = errors.into_inner().unwrap();
     out_line(&json!({"summary": true, "lines": nlines, "groups": groups.len(), "servers": t.servers, "rows": t.rows, "requests": t.requests,
         "nontrivial": t.nontrivial, "dropped": t.dropped, "forbidden_listed_peer": t.forbidden_listed_peer,
@@ -1048,7 +1142,7 @@ fn replay(bin: &str, base: &Path, threads: usize) {
         "cold_served_from_cache": t.cold_served_from_cache, "warm_unavailable": t.warm_unavailable,
         "upstream_hits": t.upstream_hits, "upstream_expected": t.upstream_expected, "mismatches": t.mismatches,
         "skipped_rows_no_ipv6": t.skipped_no_v6, "ipv6": have_v6,
-        "rows_dual_stack": t.rows_dual, "skipped_rows_no_dual_stack": t.skipped_no_dual, "dual_stack": have_dual, "hangs": t.hangs, "instances_aborted_after_hangs": t.aborted_after_hangs, "alt_ipv6_for_warmup": alt_v6.map(|a| a.to_string()),
+        "rows_dual_stack": t.rows_dual, "skipped_rows_no_dual_stack": t.skipped_no_dual, "dual_stack": have_dual, "hangs": t.hangs, "drifts": t.drifts, "configurations_rewritten_plainly": t.layout_fallbacks, "instances_aborted_after_hangs": t.aborted_after_hangs, "alt_ipv6_for_warmup": alt_v6.map(|a| a.to_string()),
         "errors": errs, "samples": t.samples}));
 }
 
@@ -1092,7 +1186,7 @@ fn random(bin: &str, base: &Path, sessions: usize, conns: usize) {
         }
         let cache = rng.chance(1, 2);
         let lm = rng.chance(1, 3);
-        let mut s4 = match Server::start(bin, base, &format!("r{}v4", si), "127.0.0.1", mode, &list, lm, cache, si) {
+        let mut s4 = match Server::start(bin, base, &format!("r{}v4", si), "127.0.0.1", mode, &list, lm, cache, si, true) {
             Ok(s) => s,
             Err(e) => {
                 eprintln!("{}", e);
@@ -1100,7 +1194,7 @@ fn random(bin: &str, base: &Path, sessions: usize, conns: usize) {
             }
         };
         let mut s6 = if have_v6 {
-            match Server::start(bin, base, &format!("r{}v6", si), "::1", mode, &list, lm, cache, si + 1) {
+            match Server::start(bin, base, &format!("r{}v6", si), "::1", mode, &list, lm, cache, si + 1, true) {
                 Ok(s) => Some(s),
                 Err(e) => {
                     eprintln!("{}", e);
@@ -1111,7 +1205,7 @@ fn random(bin: &str, base: &Path, sessions: usize, conns: usize) {
             None
         };
         let mut sd = if have_dual {
-            match Server::start(bin, base, &format!("r{}dual", si), "::", mode, &list, lm, cache, si + 2) {
+            match Server::start(bin, base, &format!("r{}dual", si), "::", mode, &list, lm, cache, si + 2, true) {
                 Ok(s) => Some(s),
                 Err(e) => {
                     eprintln!("{}", e);
@@ -1178,7 +1272,8 @@ fn random(bin: &str, base: &Path, sessions: usize, conns: usize) {
                     }).collect());
                     (es, j)
                 };
-                for k in 0..nreq {
+                let mut kbase = 0;     // index of the first request on the current connection
+                for kk in 0..nreq {
                     counter += 1;
                     let rt = *rng.pick(&ROUTE_TYPES);
                     let uri = match rt {
@@ -1192,16 +1287,38 @@ fn random(bin: &str, base: &Path, sessions: usize, conns: usize) {
                     // a second X-Forwarded-For line in one request out of six that have a first one
                     let present2 = present && rng.chance(1, 6);
                     let (es2, es2_json) = if present2 { gen_list(&mut rng, counter / 2, false) } else { (vec![], json!([])) };
-                    let xff_text = if present { Some(render_xff(&es, counter)) } else { None };
-                    let xff2_text = if present2 { Some(render_xff(&es2, counter / 2)) } else { None };
+                    let xff_text = if present { Some(render_xff(&es, counter, true)) } else { None };
+                    let xff2_text = if present2 { Some(render_xff(&es2, counter / 2, true)) } else { None };
                     srv.stamp(rt, &uri);
-                    let req = request_bytes(&uri, xff_text.as_deref(), xff2_text.as_deref(), true, counter);
-                    let o = if let Err(e) = stream.write_all(&req) {
-                        let o2 = read_response(&mut stream, &mut leftover, false);
-                        if o2.nbytes > 0 { o2 } else { Obs { status: None, headers: vec![], body: vec![], nbytes: 0, err: format!("{:?}", e.kind()) } }
-                    } else {
-                        read_response(&mut stream, &mut leftover, false)
+                    let req = request_bytes(&uri, xff_text.as_deref(), xff2_text.as_deref(), true, counter, true);
+                    let send = |stream: &mut TcpStream, leftover: &mut Vec<u8>| -> Obs {
+                        if let Err(e) = stream.write_all(&req) {
+                            let o2 = read_response(stream, leftover, false);
+                            if o2.nbytes > 0 { o2 } else { Obs { status: None, headers: vec![], body: vec![], nbytes: 0, err: format!("{:?}", e.kind()) } }
+                        } else {
+                            read_response(stream, leftover, false)
+                        }
                     };
+                    let mut o = send(&mut stream, &mut leftover);
+                    let mut k = kk - kbase;
+                    if k > 0 && classify(rt, &o, srv.ver).0 == "Dropped" {
+                        // The server closed the connection between two requests.  Whether it honours keep-alive is not
+                        // this property's business (C01): the request is sent again on a new connection from the same
+                        // address, and the log says so (close, conn, request 0).
+                        match connect_from(peer, srv.addr, Duration::from_secs(30)) {
+                            Ok(s2) => {
+                                out_line(&ev("close", dual, lm, mode, &list, cache, &peer_s, false, &empty, false, &empty, "", "", "", false, 0));
+                                out_line(&ev("conn", dual, lm, mode, &list, cache, &peer_s, false, &empty, false, &empty, "", "", "", false, 0));
+                                stream = s2;
+                                leftover.clear();
+                                k = 0;
+                                kbase = kk;
+                                srv.stamp(rt, &uri);
+                                o = send(&mut stream, &mut leftover);
+                            }
+                            Err(_) => {}
+                        }
+                    }
                     let (mut res, fc) = classify(rt, &o, srv.ver);
                     if timed_out(&res) {
                         res = "Other:hang".to_string();
